@@ -23,6 +23,47 @@ EXPLANATION = (
 TECHNIQUE = "static analysis: typestate/history enumeration by abstract interpretation over symbolic forms (object vs. fresh object after every compute) + cache-invalidation rule"
 
 
+def cleanup_breadth_rule(prog, rep):
+    """a cache that is stored BEFORE it is filled (buffer allocated, then filled in place) is dropped again by an exception handler when
+    the fill fails; that handler must catch every ordinary exception - a fill can fail with types the author did not list
+    (FloatingPointError under np.errstate(all='raise'), errors of SciPy, TypeError from a mistyped setting) and a narrower handler
+    leaves the half-filled table cached for the next compute()"""
+    rid = rep.rule("C17.cleanup-catches-every-failure", "the handler that drops a half-filled cache catches Exception (or more), not a list of types", floor=0)
+    n = 0
+    for fn in prog.all_functions():
+        if fn.cls is None:
+            continue
+        for t in ast.walk(fn.node):
+            if not isinstance(t, ast.Try):
+                continue
+            for h in t.handlers:
+                resets = [st for st in ast.walk(ast.Module(body=h.body, type_ignores=[])) if isinstance(st, ast.Assign) and isinstance(st.value, ast.Constant)
+                          and st.value.value is None and any(isinstance(x, ast.Attribute) and ast.unparse(x.value) == "self" and x.attr.startswith("_") for x in st.targets)]
+                reraises = any(isinstance(st, ast.Raise) and st.exc is None for st in h.body)
+                if not resets or not reraises:
+                    continue
+                # the same private attribute is tested `is None` and stored just before the try in this function: the lazy-fill idiom
+                attr = next(x.attr for st in resets for x in st.targets if isinstance(x, ast.Attribute))
+                lazy = any(isinstance(c, ast.Compare) and isinstance(c.left, ast.Attribute) and c.left.attr == attr and isinstance(c.ops[0], ast.Is) for c in ast.walk(fn.node))
+                if not lazy:
+                    continue
+                n += 1
+                names = [] if h.type is None else [ast.unparse(x) for x in (h.type.elts if isinstance(h.type, ast.Tuple) else [h.type])]
+                broad = h.type is None or any(x.split(".")[-1] in ("Exception", "BaseException") for x in names)
+                rep.oblige(rid, broad, where=fn.qual, what=f"except {', '.join(names) or '<bare>'}: self.{attr} = None; raise")
+                if not broad:
+                    rep.add(Finding("C17", rid, fn.module, fn.qual, h,
+                                    f"the handler that drops the half-filled cache `self.{attr}` catches only {', '.join(names)}: when the fill fails with any other "
+                                    f"exception the zero-initialised table stays cached and the next compute() silently uses it instead of recomputing "
+                                    f"(results then depend on an earlier, failed computation)", line=h.lineno))
+    if n == 0:
+        rep.notes.append("C17.cleanup-catches-every-failure: no 'store, fill in try, drop on failure' idiom found (nothing to check)")
+    probe = ast.parse("class K:\n    def p(self):\n        if self._t is None:\n            self._t = 0\n            try:\n                self.fill()\n            except ValueError:\n                self._t = None\n                raise\n        return self._t\n")
+    hs = [h for t in ast.walk(probe) if isinstance(t, ast.Try) for h in t.handlers]
+    if len(hs) != 1 or ast.unparse(hs[0].type) != "ValueError":
+        raise AnalysisError("C17 cleanup-breadth rule: positive control lost")
+
+
 def cache_rule(prog, rep):
     """structural complement: caches discovered by pattern; their input fields; writers of inputs must reset them"""
     rid = rep.rule("C17.cache-reset-on-input-store", "a method storing to an input field of a lazily filled cache resets that cache on every path", floor=0)
@@ -142,6 +183,7 @@ def run(prog, rep):
         jobs.append(("history", dict(n_t=3, labels=("a",), dist="NormalLifetime", over="all", n_pts=1, inflow_at="middle"), "SimpleFlowDrivenStock", h))
     run_stock_property(prog, rep, "C17", jobs, {"recompute": "C17.recompute-equals-fresh"})
     cache_rule(prog, rep)
+    cleanup_breadth_rule(prog, rep)
     rep.rules["C17.recompute-equals-fresh"]["floor"] = 100
     rep.exhaustive = True
     rep.extra["histories"] = len(jobs)
@@ -151,6 +193,7 @@ def run(prog, rep):
 ST = "stocks.py"
 LM = "lifetime_models.py"
 MUTANTS = [
+    {"name": "cleanup-only-on-ValueError", "path": LM, "find": "                self.compute_survival_factor()\n            except Exception:", "replace": "                self.compute_survival_factor()\n            except ValueError:"},
     {"name": "D3-set_prms-without-cache-reset", "path": LM, "find": "        self.std = self.cast_any_to_np_array(std)\n        self._reset_cache()\n", "replace": "        self.std = self.cast_any_to_np_array(std)\n"},
     {"name": "D3-weibull-set_prms-without-reset", "path": LM, "find": "        self.weibull_scale = self.cast_any_to_np_array(weibull_scale)\n        self._reset_cache()\n",
      "replace": "        self.weibull_scale = self.cast_any_to_np_array(weibull_scale)\n"},
